@@ -155,6 +155,7 @@ impl Check for C06 {
     fn run(&self, ctx: &mut Ctx) -> Result<(), MachineryError> {
         let g = grid(ctx.tier);
         ctx.rule = "complete product over the boundary grid G: every ordered pair (a,b) x {+ - * / %} x 6 forms (expression, op-assign on variable / list element / property (two spellings), x = x op b), 6 comparisons, the identity (a/b)*b + a%b == a, every `_` placement (<=2) of every non-negative grid literal with and without `-`, every non-negative grid literal padded with leading zeros to 8 widths up to 64 digits, too-large literals, ranges a .. a+d for d in [-2,6], every descending pair as a range, ranges iterated directly / evaluated again after the first result changed / spread, op-assignment on a variable shadowing another one, three-operand chains, ranges whose bounds are changed by the loop body or written as `t ± k` at the edges, element op-assignment at every position of lists of 1..6 items, 9 exact / inexact operations in 19 expression positions (conditions of if / else-if / while, iterables, indices, bounds, arguments, returns, literals, targets); non-trivial = every case (all are distinct tuples); distinct = distinct (reference outcome, diagnostic shape)".to_string();
+        ctx.rule.push_str("; operators between literal / name / `]` / `)` operands written in four spacings (8 x 8 operands, 11 operators)");
         let mut total_pairs = 0u64;
         let mut overflow_cells = 0u64;
         for chunk in g.chunks(8) {
